@@ -37,7 +37,7 @@ def main():
             if rc != 0:
                 rc, o = sh("git -C /repo apply --3way " + patch)
                 if rc != 0:
-                    sh("git -C /repo checkout -- . ; git -C /repo reset -q")
+                    sh("git -C /repo reset -q --hard HEAD")
                     summary.append((sid, "PATCH DOES NOT APPLY")); continue
                 sh("git -C /repo reset -q")
                 if not os.path.exists(os.path.join(d, "patch.orig.diff")):
@@ -57,7 +57,7 @@ def main():
                 summary.append((sid, "rc=%d %s %s" % (rc, "(rebased) " if rebased else "", cls)))
                 print(sid, summary[-1][1], flush=True)
             finally:
-                sh("git -C /repo checkout -- .")
+                sh("git -C /repo reset -q --hard HEAD")
     finally:
         for sub in ("evidence", "replays"):
             shutil.rmtree("/verif/" + sub, ignore_errors=True); shutil.copytree(keep + "/" + sub, "/verif/" + sub)
